@@ -119,6 +119,9 @@ func (e *Enc) Run() (err error) {
 			e.assume(f)
 		}
 	}
+	if e.ctr != nil && e.ctr.Opts["frame"] == "assume" {
+		e.note("the modifies clause of this function is ASSUMED for its body (opt frame assume): frame obligations are not generated")
+	}
 	e.emitGlobalAxioms()
 	e.curBlock = fn.Blocks[0]
 	e.fireAt("entry", "entry", true, fn.Pos(), st, map[string]*Val{}, "true")
@@ -681,6 +684,26 @@ func (e *Enc) execInstr(ins ssa.Instruction, st *State) {
 		}
 		e.frameCheckStore(addr, ins, st)
 		e.escapeCheck(ins.Val, v, "stored to memory")
+		if e.ctr != nil && len(e.ctr.AssertAts)+len(e.ctr.GhostAts) > 0 {
+			// assert-at store <name> #k : the assignment to the local variable / captured
+			// variable / field called <name>; `stored` is the value being written
+			name := ""
+			switch a := ins.Addr.(type) {
+			case *ssa.Alloc:
+				name = a.Comment
+			case *ssa.FreeVar:
+				name = a.Name()
+			case *ssa.FieldAddr:
+				if pt, ok := a.X.Type().Underlying().(*types.Pointer); ok {
+					if stt, ok := pt.Elem().Underlying().(*types.Struct); ok {
+						name = stt.Field(a.Field).Name()
+					}
+				}
+			}
+			if name != "" {
+				e.fireAt("store", name, true, ins.Pos(), st, map[string]*Val{"stored": v}, "true")
+			}
+		}
 		e.store(st, addr, ins.Val.Type(), v)
 		if al, ok := ins.Addr.(*ssa.Alloc); ok {
 			if e.allocVal == nil {
